@@ -779,6 +779,11 @@ func run(ctx *Ctx) *Result {
 			res.Count("msg:" + strings.TrimSuffix(k, ">>>"))
 		}
 		countHits(res, f["hits"])
+		res.Count("end-to-end-theorem-applies(wfB):" + f["wf"])
+		if f["wf"] == "1" && !strings.HasPrefix(f["exec"], "ok") {
+			// the theorem says: accepted; cross-check its conclusion on this very case
+			res.Disagree(stream+": wfB holds but the Lean device rejects the model script (contradicts ios_F2_converges)", c, "", f["exec"])
+		}
 		// Lean port of the strict device vs dev.go on the (identical) script
 		cmds = splitScript(out)
 		// both executors start from the configuration as drc read it (entries numbered 10, 20, …)
@@ -1053,6 +1058,9 @@ func corpus() []cfgCase {
 		// F-C02r at configuration level
 		mk("ip access-list extended e0_in\n deny ip 10.1.0.0 0.0.255.255 any\n remark n1\n permit ip 10.1.0.0 0.0.255.255 any\n permit tcp 10.1.0.0 0.0.255.255 any\n deny ip any any\n"+e0+" ip access-group e0_in in\n",
 			"ip access-list extended e0_in\n permit tcp 10.1.0.0 0.0.255.255 any\n remark n1\n deny ip 10.1.0.0 0.0.255.255 any\n permit ip 10.1.0.0 0.0.255.255 any\n"+e0+" ip access-group e0_in in\n"),
+		// F-C02 (repaired): move into an insert range with mixed actions must not be suppressed
+		mk("ip access-list extended e0_in\n permit tcp 10.1.0.0 0.0.255.255 any eq 80\n permit udp any any eq 53\n permit tcp 10.2.0.0 0.0.255.255 any eq 80\n permit tcp host 10.1.2.3 any eq 22\n"+e0+" ip access-group e0_in in\n",
+			"ip access-list extended e0_in\n permit tcp 10.1.0.0 0.0.255.255 any eq 80\n permit tcp host 10.1.2.3 any eq 22\n deny tcp 10.1.2.0 0.0.0.255 any\n permit udp any any eq 53\n permit tcp 10.2.0.0 0.0.255.255 any eq 80\n"+e0+" ip access-group e0_in in\n"),
 		// nothing on the device
 		mk(e0, "ip access-list extended e0_in\n permit ip any any\n"+e0+" ip access-group e0_in in\nip route 0.0.0.0 0.0.0.0 10.1.1.254\n"),
 		// identical
